@@ -30,6 +30,9 @@ type symstr []value
 type symptr struct {
 	arr []value
 	idx *smt.Term // 64-bit
+	// aggregate cells (symagg.go): the element type, or the type of the part at path
+	elt  types.Type
+	path []int
 }
 
 // absBytes is a []byte whose length is symbolic and whose elements may not be accessed.
@@ -633,6 +636,9 @@ func (i *interpreter) bytesEqTerm(a, b []value) *smt.Term {
 
 // symLoad reads arr[idx] as an ite chain (scalar cells of one kind).
 func (i *interpreter) symLoad(p symptr) value {
+	if p.elt != nil {
+		return i.symLoadAgg(p)
+	}
 	c := i.ex.ctx
 	k := types.Invalid
 	for _, cell := range p.arr {
@@ -651,6 +657,10 @@ func (i *interpreter) symLoad(p symptr) value {
 }
 
 func (i *interpreter) symStore(p symptr, v value) {
+	if p.elt != nil {
+		i.symStoreAgg(p, v)
+		return
+	}
 	c := i.ex.ctx
 	k := valueKind(v)
 	if k == types.Invalid {
